@@ -44,6 +44,17 @@ package blobstore
 // GetFromComposite hand the pending Resume to the returned buffer's error
 // handler, whose Done() is called exactly once when the buffer is consumed.
 
+//@ stub (github.com/buildbarn/bb-storage/pkg/blobstore.BlobAccess).Put
+//@   pure -- the base storage is a different object: what it does to clocks is balanced and not part of this call's ledger
+//@ stub (github.com/buildbarn/bb-storage/pkg/blobstore.BlobAccess).FindMissing
+//@   pure
+//@ stub (github.com/buildbarn/bb-storage/pkg/blobstore.BlobAccess).GetCapabilities
+//@   pure
+//@ stub (github.com/buildbarn/bb-storage/pkg/blobstore.BlobAccess).Get
+//@   pure
+//@ stub (github.com/buildbarn/bb-storage/pkg/blobstore.BlobAccess).GetFromComposite
+//@   pure
+
 //@ func (*suspendingBlobAccess).Put
 //@   props C11
 //@   ensures balanced: suspended(ba.suspendable) == 0
